@@ -201,3 +201,76 @@ OREF_DERIVED = {
         "fnyq": lambda ex, st, o: z3.RealVal("1/2") * (1 / o.fields["dt_in_seconds"]),
     },
 }
+
+
+# ---------------------------------------------------------------------------------------------------------------------
+# Dictionary with symbolic (real-valued) keys and integer values: insertion-ordered key list + membership + value map (A-DICT)
+class SDRef:
+    def __init__(self, sid):
+        self.sid = sid
+
+
+class SymDictData:
+    def __init__(self, has, val, keys, nk, owner="fresh"):
+        self.has, self.val, self.keys, self.nk, self.owner = has, val, keys, nk, owner
+
+
+def new_symdict(ex, st, owner="fresh", name="dict"):
+    sid = ex.new_sid(name)
+    st.heap[sid] = SymDictData(z3.K(R, z3.BoolVal(False)), z3.K(R, z3.IntVal(0)), z3.K(I, z3.RealVal(0)), z3.IntVal(0), owner)
+    return SDRef(sid)
+
+
+def symdict_wf(d):
+    """well-formedness: listed keys are members, are pairwise distinct, and every member is listed"""
+    t, u = z3.Ints("t!sd u!sd")
+    x = z3.Real("x!sd")
+    return [d.nk >= 0,
+            z3.ForAll([t], z3.Implies(z3.And(t >= 0, t < d.nk), z3.Select(d.has, z3.Select(d.keys, t)))),
+            z3.ForAll([t, u], z3.Implies(z3.And(t >= 0, t < u, u < d.nk), z3.Select(d.keys, t) != z3.Select(d.keys, u))),
+            z3.ForAll([x], z3.Implies(z3.Select(d.has, x), z3.Exists([t], z3.And(t >= 0, t < d.nk, z3.Select(d.keys, t) == x))))]
+
+
+def symdict_read(ex, st, ref, key, node):
+    """d[key]: KeyError on a forked path if the key is absent"""
+    from .core import ReturnRec, real
+    d = st.heap[ref.sid]
+    k = real(key)
+    present = z3.Select(d.has, k)
+    if not ex.spec_mode:
+        miss = st.fork()
+        miss.pc.append(z3.Not(present))
+        ex.returns.append(ReturnRec(miss, None, "KeyError", getattr(node, "lineno", 0)))
+        st.pc.append(present)
+    return z3.Select(d.val, k)
+
+
+def symdict_store(ex, st, ref, key, value, node):
+    from .core import real
+    d = st.heap[ref.sid]
+    if d.owner != "fresh":
+        st.writes.append((d.owner, "dict store", getattr(node, "lineno", 0)))
+    k = real(key)
+    present = z3.Select(d.has, k)
+    st.heap[ref.sid] = SymDictData(z3.Store(d.has, k, z3.BoolVal(True)), z3.Store(d.val, k, as_int(value)),
+                                   z3.If(present, d.keys, z3.Store(d.keys, d.nk, k)), z3.If(present, d.nk, d.nk + 1), d.owner)
+
+
+def symdict_havoc(ex, st, ref, name):
+    d = st.heap[ref.sid]
+    nd = SymDictData(ex.fresh(f"{name}_has", z3.ArraySort(R, B)), ex.fresh(f"{name}_val", z3.ArraySort(R, I)), ex.fresh(f"{name}_keys", z3.ArraySort(I, R)),
+                     ex.fresh(f"{name}_nk", I), d.owner)
+    st.heap[ref.sid] = nd
+    return ref
+
+
+def symdict_keys(ex, st, ref):
+    from .core import SeqV
+    d = st.heap[ref.sid]
+    return SeqV(d.nk, lambda ex_, st_, i, _d=d: z3.Select(_d.keys, i), owner="fresh", name="keys")
+
+
+def symdict_items(ex, st, ref):
+    from .core import SeqV, Tup
+    d = st.heap[ref.sid]
+    return SeqV(d.nk, lambda ex_, st_, i, _d=d: Tup((z3.Select(_d.keys, i), z3.Select(_d.val, z3.Select(_d.keys, i)))), owner="fresh", name="items")
